@@ -24,6 +24,7 @@ known_findings.json, a VIOLATION otherwise); any other failure is a VIOLATION of
 import hashlib
 import json
 import os
+import random
 import re
 import shutil
 import struct
@@ -319,13 +320,98 @@ def clean_table(rng, n=None, spread=False):
     return t
 
 
-def gen_scenario(rng, strict_times=True):
+def path_csum(path):
+    """make_new_symbol_filename(): uint16_t sum of the path's bytes"""
+    return sum(path.encode()) & 0xffff
+
+
+def sym_names(path, bid):
+    """(primary, alternative) symbol file name of a module as record names them"""
+    base = path.rsplit("/", 1)[-1]
+    return base + ".sym", "%s-%s.sym" % (base, bid[:4] if bid else "%04x" % path_csum(path))
+
+
+def gen_install_plan(rng, ws):
+    """Modules = installations of a few binaries: the same binary (same table, same build-id or
+    none) under several path names, different binaries under one base name, in any saving order.
+    Everything the writer and the reader of the symbol files have to agree on, within the
+    hypotheses of c10_symfile_writer_reader_agree (a path names one binary; alternative file
+    names collide only for installations of one binary; with --with-syms every binary has a
+    build-id).  Returns [(path, bid, table)]."""
+    plugins = (not ws) and rng.random() < 0.3
+    while True:
+        nbin = rng.randint(2, 4) if plugins else rng.randint(1, 3)
+        bins = []
+        seen = set()
+        for b in range(nbin):
+            while True:
+                bid = "" if (plugins or (not ws and rng.random() < 0.3)) else "%040x" % rng.getrandbits(160)
+                if not bid or bid[:4] not in seen:
+                    break
+            seen.add(bid[:4])
+            bins.append((bid, clean_table(rng, spread=True)))
+        bases = rng.choice([["stage"], ["libsame.so"], ["stage", "libsame.so"], ["tool", "tool-1"]])
+        if plugins:
+            # per-worker plugin directories: different libraries (no build-id) with one file name
+            bases = ["plugin.so"]
+        plan = []
+        for m in range(rng.randint(2, 5)):
+            b = rng.randrange(nbin) if (plugins or rng.random() < 0.5) else 0
+            d = rng.choice(["v%d" % (m + 1), "opt/v%d/bin" % (m + 1), "w%d" % (m + 1)])
+            plan.append(("/nonexistent-c10/%s/%s" % (d, rng.choice(bases)), bins[b][0], bins[b][1]))
+        # hypotheses: no alternative name is another module's primary name, and two modules get
+        # the same alternative name only when they are the same binary by build-id or the same path
+        ok = True
+        for (p1, b1, t1) in plan:
+            for (p2, b2, t2) in plan:
+                if sym_names(p1, b1)[1] == sym_names(p2, b2)[0]:
+                    ok = False
+                if sym_names(p1, b1)[1] == sym_names(p2, b2)[1] and not (p1 == p2 or (b1 and b1 == b2)):
+                    ok = False
+                if p1 == p2 and (b1, t1) != (b2, t2):
+                    ok = False
+        if ok:
+            return plan
+
+
+def inst_stats(scen):
+    """how many timelines save one build-id under two path names with the same base name"""
+    n = 0
+    for c in scen:
+        seen = {}
+        hit = False
+        for op in c.split("|"):
+            w = op.split()
+            if w and w[0] == "MODS" and w[3] != "-":
+                path = unhx(w[2]).decode()
+                key = (path.rsplit("/", 1)[-1], w[3])
+                if key in seen and seen[key] != path:
+                    hit = True
+                seen.setdefault(key, path)
+        n += hit
+    return n
+
+
+def gen_scenario(rng, strict_times=True, installs=False):
     """Session/task/dlopen timeline.  Returns (case line, expectations) where expectations
     is a list parallel to the query ops: None or the expected result string (ground truth
-    known by construction)."""
+    known by construction).  `installs`: the modules come from gen_install_plan (own random
+    stream of the caller)."""
     ops = []
-    nmods = rng.randint(2, 4)
     mods = {}
+    if installs:
+        ws = rng.random() < 0.3
+        ops.append("WS %d" % ws)
+        plan = gen_install_plan(rng, ws)
+        nmods = len(plan)
+        for m, (path, bid, t) in enumerate(plan, 1):
+            mods[m] = t
+            ops.append("MODS %x %s %s %s" % (m, hx(path), hx(bid), " ".join(sym_tok(s) for s in t)))
+        # libraries that can also come in through dlopen(): the reader has no build-id for those
+        # (DLOP lines carry none), so only build-id-less files are told apart by their path name
+        dl_ok = [m for m, (path, bid, t) in enumerate(plan, 1) if not ws and not bid]
+        return gen_timeline(rng, strict_times, ops, mods, nmods, dl_ok, siblings=True)
+    nmods = rng.randint(2, 4)
     # symbol directory separate from the data directory (--with-syms)?
     ws = rng.random() < 0.45
     ops.append("WS %d" % ws)
@@ -375,6 +461,11 @@ def gen_scenario(rng, strict_times=True):
             text = "".join("%016x %08x %c %s\n" % s for s in t)
             ops.append("MODT %x %s" % (m, hx(text)))
             dl_ok.append(m)
+    return gen_timeline(rng, strict_times, ops, mods, nmods, dl_ok)
+
+
+def gen_timeline(rng, strict_times, ops, mods, nmods, dl_ok, siblings=False):
+    """second half of gen_scenario: sessions, tasks, dlopens and the queries over `mods`"""
     span = 0x1000
     time = [rng.randint(1, 1000)]
 
@@ -444,7 +535,14 @@ def gen_scenario(rng, strict_times=True):
             sid = rng.choice(sorted(sessions))
             m = rng.choice(dl_ok)
             olddl = sessions[sid]["dl"]
-            if olddl and rng.random() < 0.4:
+            if siblings and olddl and rng.random() < 0.5:
+                # another process of the session (forked: same layout) opens its own library of that
+                # name, which the loader puts at the same address
+                base = olddl[-1][1]
+                other = [x for x in dl_ok if x != olddl[-1][2]]
+                if other:
+                    m = rng.choice(other)
+            elif olddl and rng.random() < 0.4:
                 base = olddl[-1][1]                   # reuse an address (dlclose + dlopen)
             else:
                 base = 0x7e0000000000 + rng.randrange(64) * 0x100000
@@ -517,6 +615,26 @@ def gen_scenario(rng, strict_times=True):
                 t = rng.choice([dt, dt - 1, dt + 1, t])
             queries.append("L %x %x %x" % (sid, max(t, 0), addr))
             expects.append(None)
+    if siblings:
+        # directed: a library that shares its load address with another one of the session is asked for
+        # at its own load time and at the end (session_find_dlsym: the latest one loaded by then)
+        for sid in sorted(sessions):
+            dl = sessions[sid]["dl"]
+            for (dt, base, m) in dl:
+                if not any(b2 == base and m2 != m for (_, b2, m2) in dl):
+                    continue
+                f = rng.choice(mods[m])
+                addr = base + f[0] + f[1] // 2
+                for t in (dt, tend):
+                    e = "-"
+                    for (dt2, base2, m2) in sorted(dl, key=lambda x: x[0], reverse=True):
+                        if dt2 <= t:
+                            c = [x for x in mods[m2] if contains(x, (addr - base2) % U64)]
+                            if c:
+                                e = sym_tok(c[0])
+                                break
+                    queries.append("L %x %x %x" % (sid, t, addr))
+                    expects.append(e)
     line = "scen | " + " | ".join(ops + queries)
     return line, expects
 
@@ -1591,6 +1709,136 @@ def report_dl(ctx, verdicts, st):
             no_failing_input=not any(v.get("fails") for v in probes))
 
 
+# ---- e2e: one binary under several path names, analysis without the binaries ---------------
+STAGE_INSTALLS = {          # directory -> (build, copy of)
+    "v1": ("A", None), "v2": ("A", "v1"), "opt/v3/bin": ("B", None), "v4": ("N", None), "v5": ("N", "v4"),
+    "w6": ("B", "opt/v3/bin"),
+}
+STAGE_FUNCS = {"A": ["main", "a_work", "a_leaf"], "N": ["main", "a_work", "a_leaf"],
+               "B": ["main", "b_work", "b_extra", "b_tail"]}
+STAGE_OWN = {"main", "a_work", "a_leaf", "b_work", "b_extra", "b_tail", "execv"}
+RE_STAGE_ENTRY = re.compile(r"^[\s|]*([A-Za-z_<][^\s(]*)\(\)( \{|;)")
+
+
+def build_stage(ctx):
+    """A = with build-id, B = another binary of the same name, N = A's source without a build-id;
+    copies are byte-identical (the same build-id under another path name)"""
+    root = os.path.join(ctx.scratch, "stage")
+    shutil.rmtree(root, ignore_errors=True)
+    src = os.path.join(C.VERIF, "harness", "c10_stage.c")
+    flags = {"A": ["-Wl,--build-id=sha1"], "B": ["-DVARB", "-Wl,--build-id=sha1"], "N": ["-Wl,--build-id=none"]}
+    for d, (b, cp) in STAGE_INSTALLS.items():
+        os.makedirs(os.path.join(root, "inst", d))
+        out = os.path.join(root, "inst", d, "stage")
+        if cp:
+            shutil.copy2(os.path.join(root, "inst", cp, "stage"), out)
+            continue
+        r = C.sh(["gcc", "-pg", "-O0", "-o", out, src] + flags[b])
+        if r.returncode != 0:
+            return None, r.stdout
+    return root, ""
+
+
+def stage_names(text):
+    out = []
+    for l in text.split("\n"):
+        m = RE_STAGE_ENTRY.match(l)
+        if m:
+            out.append(m.group(1))
+    return out
+
+
+def run_stage_chain(ctx, root, idx, chain):
+    """record `chain` (install directories, exec()ed in turn), replay with the binaries in place and
+    after they are gone; returns dict(problems=[...], ...)"""
+    d = os.path.join(root, "run%d" % idx)
+    shutil.rmtree(d, ignore_errors=True)
+    os.makedirs(d)
+    inst = os.path.join(d, "inst")
+    shutil.copytree(os.path.join(root, "inst"), inst)
+    paths = [os.path.join(inst, c, "stage") for c in chain]
+    uft = os.path.join(ctx.src, "uftrace")
+    res = {"chain": chain, "problems": []}
+    rc, out, err, to = C.run_bounded([uft, "record", "--libmcount-path=" + os.path.join(ctx.src, "libmcount"),
+                                      "--no-event", "--no-pager", "-d", os.path.join(d, "data")] + paths, 60, cwd=d)
+    if rc != 0 or to:
+        res["error"] = "uftrace record failed rc=%s timeout=%s %s" % (rc, to, err[-400:])
+        return res
+    res["sym_files"] = sorted(f for f in os.listdir(os.path.join(d, "data")) if f.startswith("stage"))
+
+    def replay():
+        rc, out, err, to = C.run_bounded([uft, "replay", "-d", os.path.join(d, "data"), "--no-pager", "--color=no",
+                                          "-f", "none"], 60, cwd=d)
+        return rc, out, err
+
+    rc1, with_bin, err1 = replay()
+    shutil.rmtree(inst)                         # the data is analysed where the binaries are not available
+    rc2, without, err2 = replay()
+    res["replay_rc"] = [rc1, rc2]
+    expect = []
+    for k, c in enumerate(chain):
+        expect += STAGE_FUNCS[STAGE_INSTALLS[c][0]]
+        if k + 1 < len(chain):
+            expect.append("execv")
+    own1 = [n for n in stage_names(with_bin) if n in STAGE_OWN]
+    all2 = stage_names(without)
+    own2 = [n for n in all2 if n in STAGE_OWN]
+    res.update({"expected": expect, "with_binaries": own1, "without_binaries": own2})
+    if rc1 != 0 or rc2 != 0:
+        res["problems"].append("replay failed: %s %s" % (err1[-200:], err2[-200:]))
+    if own1 != expect:
+        res["problems"].append("with the binaries in place the program's functions are not the ones it called")
+    if own2 != expect:
+        res["problems"].append("read from the symbol files record wrote, the program's functions are not the "
+                               "ones it called")
+    raw = [n for n in all2 if re.match(r"^<[0-9a-f]+>$", n)]
+    if raw:
+        res["problems"].append("%d calls left as raw addresses although record saved the symbols" % len(raw))
+        res["raw_addresses"] = raw[:6]
+    if stage_names(with_bin) != all2 and not res["problems"]:
+        res["problems"].append("the trace read from the symbol files differs from the one read from the binaries")
+    if not res["problems"]:
+        shutil.rmtree(d, ignore_errors=True)
+    return res
+
+
+def run_install_e2e(ctx, st):
+    """chains of exec()s over the installations; own random stream"""
+    rng = random.Random(ctx.seed * 1000003 + 1011)
+    root, log = build_stage(ctx)
+    if root is None:
+        C.violation(ctx, "build", {"kind": "harness-build-failed", "log": log[-3000:]}, True)
+        return
+    dirs = sorted(STAGE_INSTALLS)
+    chains = [["v1", "v2"], ["v1", "opt/v3/bin", "v2"], ["v4", "v5", "v1"]]
+    for _ in range(5 if ctx.tier == "quick" else 60):
+        chains.append([rng.choice(dirs) for _ in range(rng.randint(2, 4))])
+    with ThreadPoolExecutor(4) as ex:
+        results = list(ex.map(lambda a: run_stage_chain(ctx, root, a[0], a[1]), enumerate(chains)))
+    st["install_e2e_chains"] = len(chains)
+    st["install_e2e_hops"] = sum(len(c) for c in chains)
+    st["install_e2e_harness_problems"] = 0
+    nrep = 0
+    for res in results:
+        if "error" in res:
+            st["install_e2e_harness_problems"] += 1
+            if st["install_e2e_harness_problems"] == 1:
+                C.violation(ctx, "stage-harness", {"kind": "harness-failed", "chain": res["chain"],
+                                                   "error": res["error"]}, True)
+            continue
+        if res["problems"]:
+            st["install_e2e_failures"] = st.get("install_e2e_failures", 0) + 1
+            if nrep < 2:
+                nrep += 1
+                C.violation(ctx, "stage-%d" % nrep, {
+                    "kind": "property-violated-on-implementation",
+                    "theorem": "c10_symfile_writer_reader_agree / c10_symfile_saved_tables_reload",
+                    "what": "uftrace record of an exec() chain over installations of one program "
+                            "(harness/c10_stage.c), replay after the binaries are removed",
+                    "stage_chain": res["chain"], **{k: res[k] for k in res if k not in ("chain",)}})
+    return results
+
+
 def run(ctx):
     ok, problems = C.prove(ctx, "C10")
     if not ok:
@@ -1625,6 +1873,14 @@ def run(ctx):
         line, ex = gen_scenario(rng, strict_times=(i % 4 != 3))
         cases.append(line)
         expects[line] = ex
+    # installations of one binary under several path names / several binaries under one base
+    # name (own random stream: the draws of the families above and below stay what they were)
+    rng_inst = random.Random(ctx.seed * 1000003 + 1010)
+    ninst = 250 if quick else 3000
+    for i in range(ninst):
+        line, ex = gen_scenario(rng_inst, strict_times=True, installs=True)
+        cases.append(line)
+        expects[line] = ex
     aslr = aslr_cases(rng, naslr)
     cases += aslr
 
@@ -1649,16 +1905,20 @@ def run(ctx):
     nviol = 0
     ndis = 0
     nmon = 0
+    allprobs = []
     for case, probs, _ in res:
         for (kind, mon, detail) in probs:
             ndis += not mon
             nmon += mon
-            if nviol < 4:
-                nviol += 1
-                h = hashlib.sha1(case.encode()).hexdigest()[:8]
-                d = {"kind": kind, "harness_case": case if len(case) < 20000 else case[:20000]}
-                d.update(detail)
-                C.violation(ctx, "case-%s-%d" % (h, nviol), d, no_failing_input=not mon)
+            allprobs.append((case, kind, mon, detail))
+    # concrete failing inputs (monitor failures) are reported before bare model/code disagreements
+    allprobs = [p for p in allprobs if p[2]][:3] + [p for p in allprobs if not p[2]]
+    for (case, kind, mon, detail) in allprobs[:4]:
+        nviol += 1
+        h = hashlib.sha1(case.encode()).hexdigest()[:8]
+        d = {"kind": kind, "harness_case": case if len(case) < 20000 else case[:20000]}
+        d.update(detail)
+        C.violation(ctx, "case-%s-%d" % (h, nviol), d, no_failing_input=not mon)
     # pairs of answers for the same offset at two bases
     if aslr:
         for case, _, pairs in res:
@@ -1696,6 +1956,9 @@ def run(ctx):
         dl_samples = [" ".join(v["argv"]) for v in verdicts[-2:]]
         st["dl_distinct_timelines"] = len({" ".join(v["argv"]) for v in verdicts})
     st.pop("dl_env", None)
+    if verdicts is not None:
+        run_install_e2e(ctx, st)
+        nmon += st.get("install_e2e_failures", 0)
     ctx.notes.append("record-time side done at %.1f s" % ctx.elapsed())
     nmon += st["dl_monitor_failures"]
     ndis += st["dl_model_code_disagreements"]
@@ -1719,14 +1982,23 @@ def run(ctx):
                 "maps; symbol files written by the real save_module_symbol_file into the data directory or a "
                 "separate --with-syms directory, 60% with 2-4 modules sharing a basename and build-ids "
                 "all/none/mixed/same-4-prefix; every 4th with equal timestamps allowed) queried through "
-                "find_task_session/find_symtabs/session_find_dlsym/task_find_sym_addr; ASLR pairs; "
+                "find_task_session/find_symtabs/session_find_dlsym/task_find_sym_addr; install timelines (own "
+                "random stream): 1-4 binaries (with/without build-id) installed under 2-5 path names over 1-2 base "
+                "names - the same build-id under several paths, different binaries under one name, 30% per-worker "
+                "plugin directories (build-id-less plugin.so files dlopen()ed at one address by processes of one "
+                "session, asked for at their load time and at the end) - saved by the real save_module_symbol_file "
+                "in generated order and resolved by load_module_symbol with no binary to fall back to, 30% through "
+                "--with-syms; ASLR pairs; e2e exec() chains (3 fixed + random) over six installations of "
+                "harness/c10_stage.c (two binaries, one without build-id, byte-identical copies) recorded by the real "
+                "uftrace and replayed before and after the binaries are removed; "
                 "record-time: 9 hand-made + random dlopen/dlsym/dlclose/RTLD_NOLOAD timelines (3-11 operations over 11 "
                 "plugin libraries with traced constructors/destructors, a dependency, nested dlopen, same basename, "
                 "basename prefixes, 45% of the opens re-open a closed library) recorded by the real uftrace with ASLR "
                 "off, every record of the replay checked against the loader's list and nm. "
                 "distinct = distinct harness case lines",
         "cases": {"corpus": ncorpus, "special_texts": len(special_texts()), "random_texts": nlf,
-                  "random_tables": nsv, "timelines": nsc, "aslr": naslr, "real_elf_files": len(elf),
+                  "random_tables": nsv, "timelines": nsc, "install_timelines": ninst, "aslr": naslr,
+                  "real_elf_files": len(elf),
                   "record_time_dlopen_timelines": st["dl_timelines"]},
         "model_code_disagreements": ndis,
         "monitor_failures_on_impl": nmon,
@@ -1738,7 +2010,8 @@ def run(ctx):
     ctx.coverage["symfile_selection"] = {
         "timelines_with_syms_dir": sum("| WS 1 |" in c for c in scen),
         "timelines_same_basename_modules": sum(c.count(hx("/libsame.so")) >= 2 for c in scen),
-        "both": sum("| WS 1 |" in c and c.count(hx("/libsame.so")) >= 2 for c in scen)}
+        "both": sum("| WS 1 |" in c and c.count(hx("/libsame.so")) >= 2 for c in scen),
+        "install_timelines_same_binary_two_paths_one_basename": inst_stats(scen)}
     ctx.assumptions += [
         "libc bsearch is the midpoint loop of glibc (model = exact loop; compared on every query)",
         "qsort result is an address-sorted permutation; order inside equal-address runs is only counted",
@@ -1779,6 +2052,18 @@ def replay(ctx, path):
         print("tree follows the %s wrapper" % ("as-coded" if coded else "repaired"))
         bad = bool(v.get("fails")) or bool(v["problems"]) or not v.get("match", {}).get(cmpv)
         return 1 if bad else 0
+    if r.get("stage_chain"):
+        ok, mlog = ctx.make()
+        if not ok:
+            print(mlog[-2000:])
+            return 2
+        root, log = build_stage(ctx)
+        if root is None:
+            print(log)
+            return 2
+        res = run_stage_chain(ctx, root, 0, r["stage_chain"])
+        print(json.dumps(res, indent=1))
+        return 2 if "error" in res else (1 if res["problems"] else 0)
     case = r.get("harness_case")
     if not case:
         return 0
